@@ -86,14 +86,14 @@ func runC20(c *Ctx) error {
 		druns[i] = TD.NewRun("decorator-conformance", nil)
 		druns[i].Key = fmt.Sprintf("decorator-conformance/%d", i)
 	}
-	Parallel(nd2, func(i int) { subdecRun(druns[i], c.SubRng(1000+i)) })
+	Parallel(nd2, func(i int) { subdecRun(druns[i], c.SubRng(1000+i), i%3 == 0) })
 	c.AddStat("decorator_conformance_runs", nd2)
 	return nil
 }
 
 // ------------------------------------------------------------------ delay.Publisher
 func c20Delay(r *tr.Run) (n int) {
-	srcs := []string{"meta", "ctx", "none"}
+	srcs := []string{"meta", "ctx", "none", "metafor"}
 	var batches [][]string
 	for _, a := range srcs {
 		batches = append(batches, []string{a})
@@ -118,6 +118,8 @@ func c20Delay(r *tr.Run) (n int) {
 			switch s {
 			case "meta":
 				delay.Message(m, delay.For(5*time.Minute))
+			case "metafor":
+				m.Metadata.Set(delay.DelayedForKey, "5m0s") // set by hand, without the delayed-until key
 			case "ctx":
 				d := delay.For(ctxFor)
 				if ctxKind == "until-future" || ctxKind == "until-past" {
@@ -150,6 +152,10 @@ func c20Delay(r *tr.Run) (n int) {
 				us := m.Metadata.Get(delay.DelayedUntilKey)
 				if fs == "" && us == "" {
 					from = append(from, "nodelay")
+					continue
+				}
+				if batch[i] == "metafor" && fs == "5m0s" && us == "" {
+					from = append(from, "meta") // left as it was
 					continue
 				}
 				d, e1 := time.ParseDuration(fs)
